@@ -56,6 +56,10 @@ type genState struct {
 	created int
 	depth   int
 	added   map[string]int // table -> number of extra columns added
+	// repository switch (CLI check only): one top-level SET @@REPOSITORY TO 'alt' at a drawn position
+	canSwitch bool
+	switched  bool
+	nf        int
 }
 
 func (g *genState) id() int { g.nextID++; return g.nextID }
@@ -86,8 +90,45 @@ var probeStmts = []string{
 	"UPDATE `p.csv` SET s = s WHERE 1 = 0",
 }
 
+// switch probe: q.csv exists in the start directory and below alt/. Before the repository switch it is only
+// read; after it the name q.csv means alt/q.csv, so nothing the procedure does may rewrite ./q.csv.
+const switchProbe = "q.csv"
+
+var switchProbeReads = []string{
+	"SELECT COUNT(*) FROM `q.csv`",
+	"SELECT * FROM `q.csv` WHERE id = 1",
+}
+
+var switchProbeWrites = []string{
+	"UPDATE `q.csv` SET v = v + %d",
+	"INSERT INTO `q.csv` (id, v, s) VALUES (%d, 1, 'q')",
+	"DELETE FROM `q.csv` WHERE id <> %d",
+}
+
 func (g *genState) leaf() node {
 	t := g.t
+	if g.canSwitch {
+		switch {
+		case !g.switched && g.depth == 0 && fw.Pct(t, "switchRepo", 12):
+			// from here on every file name resolves below alt/: tables created so far do not exist there
+			g.switched = true
+			g.files = g.files[:g.nf]
+			for k := range g.added {
+				if strings.HasPrefix(k, "`") {
+					delete(g.added, k)
+				}
+			}
+			return node{ID: g.id(), Kind: "decl", SQL: "SET @@REPOSITORY TO 'alt'"}
+		case !g.switched && fw.Pct(t, "switchProbeRead", 8):
+			return node{ID: g.id(), Kind: "dml", SQL: fw.PickU(t, "switchProbeReadStmt", switchProbeReads)}
+		case g.switched && fw.Pct(t, "switchProbeWrite", 25):
+			id := g.id()
+			return node{ID: id, Kind: "dml", SQL: fmt.Sprintf(fw.PickU(t, "switchProbeWriteStmt", switchProbeWrites), id)}
+		}
+	}
+	if g.depth > 0 && fw.Pct(t, "nestedExit", 3) {
+		return node{ID: g.id(), Kind: "exit", SQL: "EXIT"}
+	}
 	if fw.Pct(t, "probe", 12) {
 		return node{ID: g.id(), Kind: "dml", SQL: fw.PickU(t, "probeStmt", probeStmts)}
 	}
@@ -231,9 +272,9 @@ func genFileExt(t *rapid.T, ext string) string {
 
 var fileExts = []string{".csv", ".csv", ".tsv", ".ltsv", ".json", ".jsonl"}
 
-var terminators = []string{"end", "end", "error", "error", "error", "exit", "exitcode", "rollback_end"}
+var terminators = []string{"end", "end", "error", "error", "error", "exit", "exitcode", "exit_prepared", "rollback_end"}
 
-func genProg(t *rapid.T, withTemps bool) progCase {
+func genProg(t *rapid.T, withTemps bool, cliOnly bool) progCase {
 	c := progCase{Files: map[string]string{}}
 	g := &genState{t: t, added: map[string]int{}}
 	nf := fw.Range(t, "nfiles", 1, 2)
@@ -249,6 +290,16 @@ func genProg(t *rapid.T, withTemps bool) progCase {
 	c.Untouched = "u.csv"
 	c.Files[c.Untouched] = genFile(t)
 	c.Files[probeFile] = probeBytes
+	g.nf = nf
+	if cliOnly && fw.Pct(t, "withSwitch", 30) {
+		g.canSwitch = true
+		for i := 0; i < nf; i++ {
+			c.Files["alt/"+g.files[i]] = genFileExt(t, filepath.Ext(g.files[i]))
+		}
+		c.Files[switchProbe] = probeBytes
+		c.Files["alt/"+probeFile] = probeBytes
+		c.Files["alt/"+switchProbe] = genFile(t)
+	}
 	var prog []node
 	if withTemps {
 		nt := fw.Range(t, "ntemps", 1, 2)
@@ -278,6 +329,12 @@ func genProg(t *rapid.T, withTemps bool) progCase {
 		tn = &node{ID: g.id(), Kind: "exit", SQL: "EXIT"}
 	case "exitcode":
 		tn = &node{ID: g.id(), Kind: "exit", SQL: "EXIT 3"}
+	case "exit_prepared":
+		if cliOnly {
+			tn = &node{ID: g.id(), Kind: "exit", SQL: "PREPARE gx FROM 'EXIT';\nEXECUTE gx"}
+		} else {
+			tn = &node{ID: g.id(), Kind: "exit", SQL: "EXIT"}
+		}
 	case "rollback_end":
 		pos = len(prog)
 		tn = &node{ID: g.id(), Kind: "rollback", SQL: "ROLLBACK"}
@@ -357,7 +414,12 @@ func trace(stdout string) []int {
 // declarations; the result ends with COMMIT. upto = number of trace entries to
 // take (the position of the last COMMIT for abnormal endings).
 func reduce(tr []int, lv map[int]node, upto int) string {
-	var kept, seg []string
+	type ent struct {
+		sql  string
+		decl bool
+	}
+	var kept []string
+	var seg []ent
 	for i := 0; i < len(tr); i++ {
 		n := lv[tr[i]]
 		if i >= upto && n.Kind != "decl" {
@@ -365,18 +427,28 @@ func reduce(tr []int, lv map[int]node, upto int) string {
 		}
 		switch n.Kind {
 		case "commit":
-			kept = append(kept, seg...)
+			for _, e := range seg {
+				kept = append(kept, e.sql)
+			}
 			seg = nil
 		case "rollback":
+			// declarations and flag settings are not transactional: they keep their place
+			for _, e := range seg {
+				if e.decl {
+					kept = append(kept, e.sql)
+				}
+			}
 			seg = nil
 		case "decl":
-			kept = append(kept, n.SQL)
+			seg = append(seg, ent{n.SQL, true})
 		case "error", "exit":
 		default:
-			seg = append(seg, n.SQL)
+			seg = append(seg, ent{n.SQL, false})
 		}
 	}
-	kept = append(kept, seg...)
+	for _, e := range seg {
+		kept = append(kept, e.sql)
+	}
 	return strings.Join(append(kept, "COMMIT"), ";\n") + ";\n"
 }
 
@@ -573,6 +645,7 @@ func checkCLI(c progCase) (fw.Outcome, *fw.Violation) {
 		dir := setup(c, tag)
 		ino0, mt0 := inoMtime(filepath.Join(dir, c.Untouched))
 		pino0, pmt0 := inoMtime(filepath.Join(dir, probeFile))
+		qino0, qmt0 := inoMtime(filepath.Join(dir, switchProbe))
 		logp := ""
 		if tag == "plain" {
 			logp = filepath.Join(home, fmt.Sprintf("points-%d.log", atomic.AddInt64(&seq, 1)))
@@ -586,6 +659,7 @@ func checkCLI(c progCase) (fw.Outcome, *fw.Violation) {
 			dir = setup(c, tag+"-retry")
 			ino0, mt0 = inoMtime(filepath.Join(dir, c.Untouched))
 			pino0, pmt0 = inoMtime(filepath.Join(dir, probeFile))
+			qino0, qmt0 = inoMtime(filepath.Join(dir, switchProbe))
 			if logp != "" {
 				_ = os.Remove(logp)
 			}
@@ -604,10 +678,16 @@ func checkCLI(c progCase) (fw.Outcome, *fw.Violation) {
 		got := run.Snapshot(dir)
 		ino1, mt1 := inoMtime(filepath.Join(dir, c.Untouched))
 		pino1, pmt1 := inoMtime(filepath.Join(dir, probeFile))
+		qino1, qmt1 := inoMtime(filepath.Join(dir, switchProbe))
 		_ = os.RemoveAll(dir)
 		if _, hasProbe := c.Files[probeFile]; hasProbe {
 			if got[probeFile] != c.Files[probeFile] || pino0 != pino1 || !pmt0.Equal(pmt1) {
 				return fw.V("unchanged_table_rewritten", "%s: %s is only touched by statements that change no record (zero-match UPDATE/DELETE/INSERT..SELECT/REPLACE, SELECT FOR UPDATE) but was rewritten: %q -> %q (inode %d->%d)\nprocedure:\n%s", tag, probeFile, c.Files[probeFile], got[probeFile], pino0, pino1, prog), nil, res, points
+			}
+		}
+		if _, hasQ := c.Files[switchProbe]; hasQ {
+			if got[switchProbe] != c.Files[switchProbe] || qino0 != qino1 || !qmt0.Equal(qmt1) {
+				return fw.V("file_of_other_repository_rewritten", "%s: ./%s is only read before SET @@REPOSITORY TO 'alt' and every later statement names alt/%s, but ./%s was rewritten: %q -> %q (inode %d->%d)\nprocedure:\n%s", tag, switchProbe, switchProbe, switchProbe, c.Files[switchProbe], got[switchProbe], qino0, qino1, prog), nil, res, points
 			}
 		}
 		if res.TimedOut {
@@ -680,8 +760,15 @@ func checkCLI(c progCase) (fw.Outcome, *fw.Violation) {
 		endKind = "stopped"
 	}
 	for _, n := range lv {
-		if n.Kind == "exit" || n.Kind == "error" {
+		if n.Kind == "error" {
 			endKind = n.Kind + ":" + n.SQL
+		}
+	}
+	for _, id := range tr {
+		// an EXIT that was reached (its marker precedes it) ends the run, whatever follows in the text
+		if n := lv[id]; n.Kind == "exit" {
+			endKind = n.Kind + ":" + n.SQL
+			break
 		}
 	}
 	switch {
@@ -803,7 +890,7 @@ func countLeavesExecutedFully(ns []node, lv map[int]node) int {
 func TestC01CliPrefix(t *testing.T) {
 	fw.Run(t, fw.Spec[progCase]{
 		ID: "C01", Name: "cli_prefix", Quick: 1000, Thorough: 16000,
-		Gen:   func(t *rapid.T) progCase { return genProg(t, fw.Pct(t, "withTemps", 40)) },
+		Gen:   func(t *rapid.T) progCase { return genProg(t, fw.Pct(t, "withTemps", 40), true) },
 		Check: checkCLI,
 		Rule: "generated procedures (INSERT VALUES/SELECT, UPDATE, DELETE, REPLACE, CREATE TABLE [AS], ALTER ADD/DROP on 1-2 files in CSV/TSV/LTSV/JSON/JSONL, created files and temporary tables; COMMIT/ROLLBACK; nested IF/ELSE and WHILE blocks) with a terminator at a drawn position (normal end, failing statement, EXIT, EXIT 3, trailing ROLLBACK) run by the real binary; every leaf prints a marker, so the executed trace is read from stdout. Oracle: the final directory is byte-identical to the one produced by a reference program consisting only of the statements of the transactions that were committed before the end (rolled-back transactions dropped) + COMMIT; after a normal end: all executed statements + COMMIT. 45% of cases are run again with SIGINT/SIGTERM self-delivered at a drawn statement boundary or lib/file / commit point (old or new complete state admissible). A file never named keeps bytes, inode and mtime. non-trivial = data-changing statements after the last COMMIT with an abnormal end, or a COMMIT followed by further changes; distinct by (terminator, #commits, statement kinds after the last commit, exit code)",
 		Assumptions: []string{"the reference directory is produced by csvq itself from the committed statements only (differential/metamorphic oracle): a defect that affects a statement identically with and without the surrounding uncommitted work is not visible here (C05 covers statement semantics)",
@@ -925,7 +1012,7 @@ func checkInProc(c progCase) (fw.Outcome, *fw.Violation) {
 func TestC01InprocTemp(t *testing.T) {
 	fw.Run(t, fw.Spec[progCase]{
 		ID: "C01", Name: "inproc_temp", Quick: 6000, Thorough: 120000,
-		Gen:   func(t *rapid.T) progCase { c := genProg(t, true); c.SignalAt = ""; return c },
+		Gen:   func(t *rapid.T) progCase { c := genProg(t, true, false); c.SignalAt = ""; return c },
 		Check: checkInProc,
 		Rule: "the same procedures, always with 1-2 temporary tables, executed through parser+Processor with AutoCommit exactly as action.Run does, followed by the CLI's deferred AutoRollback; then every temporary table is dumped through the same scope and every file re-read. Oracle: dumps and files equal those of the reference program (committed transactions only, declarations kept). non-trivial = an abnormal end with temporary-table changes after the last COMMIT, or a ROLLBACK executed in a procedure with temporary tables; distinct by (normal?, #commits, #rollbacks, statement kinds after last commit)",
 	})
